@@ -130,6 +130,14 @@ func c04Run(t *testing.T, in c04Input) c04Impl {
 	if err != nil {
 		return c04Impl{Err: "encode: " + err.Error()}
 	}
+	// the same instance has already built reports for ANOTHER outcome under the same sequence number (no state may carry over)
+	if len(in.Agreed) > 1 {
+		decoy := ocr2keepersv3.AutomationOutcome{AgreedPerformables: fromJCRs(in.Agreed[1:])}
+		if dr, err := decoy.Encode(); err == nil {
+			node.Plugin.Reports(context.Background(), 7, dr)
+			node.Enc.Take()
+		}
+	}
 	reports, err := node.Plugin.Reports(context.Background(), 7, raw)
 	calls := node.Enc.Take()
 	impl := c04Impl{NReports: len(reports), Reports: [][]JCR{}}
